@@ -430,11 +430,3 @@ Proof.
   - lia.
 Qed.
 
-Print Assumptions B_continuous_at_multiple_knot.
-Print Assumptions dB_continuous_at_multiple_knot.
-Print Assumptions seam_derivatives.
-Print Assumptions seam_value.
-Print Assumptions wrap_value.
-Print Assumptions wrap_value_domain.
-Print Assumptions seam_derivatives_list.
-Print Assumptions seam_value_list.
